@@ -85,6 +85,8 @@ def make_spec(c):
     gcols = [k for k in ("g0", "g1", "u0") if (k.startswith("g") and len(spec.get("page_by") or []) > int(k[1])) or (k == "u0" and spec.get("subline_by"))]
     dcols = [f"c{j}" for j in range(len(cols))]
     pos = c.get("pos", "first")
+    if c.get("gperm"):  # the consumed columns sit in the frame in the opposite order (their names then sort the other way round than their positions)
+        gcols = list(reversed(gcols))
     if gcols:
         if pos == "first":
             spec["colorder"] = gcols + dcols
@@ -247,6 +249,15 @@ def plan(run):
                         for nrow in (50, 3):
                             spc.append({"n": n, "nrow": nrow, "strat": strat, "keys": keys, "pos": "first", "special": {"group": g, "value": val}})
     run.layer("groups-without-heading-text", "mc.props.c02:eval_case", spc, chunk=100, total=len(spc))
+    # several consumed columns whose order in the frame is the reverse of the order of their names / of the by-lists
+    perm = []
+    for n in ((4, 6) if quick else (3, 4, 5, 6)):
+        for keys in (compositions(n) if n <= 5 else run_vectors(n)):
+            for strat in ("page_by2", "subline_by+page_by"):
+                for pos in ("first", "middle", "last"):
+                    for nrow in (50, 3):
+                        perm.append({"n": n, "nrow": nrow, "strat": strat, "keys": keys, "pos": pos, "gperm": True})
+    run.layer("consumed-columns-in-permuted-order", "mc.props.c02:eval_case", perm, chunk=100, total=len(perm))
     # radius-1 deviations around paginated anchors
     dev = []
     anchors = [{"n": 6, "nrow": 3, "strat": s, "keys": [0, 0, 1, 1, 2, 2], "pos": "middle"} for s in ("plain", "page_by", "subline_by", "page_by_newpage_firstrow")]
